@@ -251,7 +251,64 @@ def bad_element_lines(rng, last):
 
 keep_alive = []      # scratch documents stay alive for the whole run (leak probe: nothing may depend on their death)
 
-EXC = {"ValueError": "ValueError", "AmbiguousDeb822FieldKeyError": "Ambiguous", "KeyError": "KeyError"}
+EXC = {"ValueError": "ValueError", "AmbiguousDeb822FieldKeyError": "Ambiguous", "KeyError": "KeyError", "X17Fault": "CallerError"}
+
+
+class X17Fault(Exception):
+    """the private exception of a faulting caller-supplied object (SIZE_STRESS part 5)"""
+
+
+class FaultyList(list):
+    """a list of comment lines whose iteration raises after k items (len(), indexing and isinstance(list) work)"""
+
+    def __init__(self, items, k):
+        list.__init__(self, items)
+        self._k = k
+
+    def __iter__(self):
+        for i, x in enumerate(list.__iter__(self)):
+            if i >= self._k:
+                raise X17Fault("line %d of the caller's list cannot be read" % (i + 1))
+            yield x
+        raise X17Fault("the caller's list cannot be read to its end")
+
+
+class FaultyDict(dict):
+    """a mapping whose items() / iteration raise after k items"""
+
+    def __init__(self, pairs, k):
+        dict.__init__(self, pairs)
+        self._k = k
+
+    def _walk(self, it):
+        for i, x in enumerate(it):
+            if i >= self._k:
+                raise X17Fault("item %d of the caller's mapping cannot be read" % (i + 1))
+            yield x
+        raise X17Fault("the caller's mapping cannot be read to its end")
+
+    def items(self):
+        return self._walk(dict.items(self))
+
+    def __iter__(self):
+        return self._walk(dict.__iter__(self))
+
+    def keys(self):
+        return self._walk(dict.keys(self))
+
+
+class FaultyFd(object):
+    """a binary file object whose k-th write() raises"""
+
+    def __init__(self, k):
+        self.k, self.n, self.data = k, 0, []
+
+    def write(self, b):
+        self.n += 1
+        if self.n > self.k:
+            raise X17Fault("write %d fails" % self.n)
+        self.data.append(b)
+        return len(b)
 _REAL = {}
 
 
@@ -358,6 +415,8 @@ class World(object):
         try:
             self._apply(c, rng, bad_lines)
             return "ok"
+        except X17Fault:
+            return "CallerError"
         except Exception as ex:      # noqa: BLE001 -- an exception of the library is an observation
             if not from_repo(ex):
                 raise
@@ -453,6 +512,26 @@ class World(object):
             if self.last_list is not None:          # the caller's list is the caller's: mutating it afterwards changes nothing
                 self.last_list.append("# appended after the call\n")
                 self.last_list[:] = ["# overwritten\n"] * len(self.last_list)
+            return
+        if op == "fset":
+            p = c["p"] - 1
+            para = self.paras[p]
+            present = any(kv.field_name.lower() == conc.names[c["key"]["n"]].lower() for kv in self.kvs(p))
+            key = self.key_for(p, c["key"], rng, present)
+            val = conc.value(c["v"])
+            fl = FaultyList(conc.lines(c["m"]["cl"]), c["j"])
+            self.last_api = "raw+fault"
+            if val["rawonly"] or val["rest"] != "" or rng.random() < 0.5:
+                para.set_field_from_raw_string(key, val["stored"], field_comment=fl)
+            else:
+                para.set_field_to_simple_value(key, val["first"], field_comment=fl)
+            return
+        if op == "fdict":
+            pairs = []
+            for it in c["it"]:
+                val = conc.value(it["v"])
+                pairs.append((conc.spelled(it["n"], it["s"]), val["first"] + ("\n" + val["rest"][:-1] if val["rest"] else "")))
+            self.paras.append(Deb822ParagraphElement.from_dict(FaultyDict(pairs, c["j"])))
             return
         if op == "cmt":
             p = c["p"] - 1
@@ -641,6 +720,15 @@ class World(object):
         f.dump(out)
         if out.getvalue() != want.encode("utf-8"):
             return "dump(fd) of the new file differs from dump()"
+        if want:
+            bad = FaultyFd(len(want) % 3)                # the caller's fd fails at its 1st..3rd write: its exception, nothing else
+            try:
+                f.dump(bad)
+                return "dump(fd) with a failing fd did not let the caller's exception out"
+            except X17Fault:
+                pass
+            if f.dump() != want or not want.encode("utf-8").startswith(b"".join(bad.data)):
+                return "after dump(fd) with a failing fd the document is %r, the specification says %r" % (clip(f.dump()), clip(want))
         if g.dump() != "" or list(g) != []:
             return "a second new_empty_file() created before the appends is not empty any more: %r" % clip(g.dump())
         return None
@@ -953,9 +1041,15 @@ class Recorder(object):
             ev.update(n=n, key={"n": n, "s": it.spelling(keytxt), "i": idx})
             api, given, stored = self._new_value()
             ev["v"] = it.value(stored)
-            kw, mode = self._mode(ev, p, occ, idx)
             para = self.paras[p]
             present = bool(occ)
+            if rng.random() < 0.06:                 # the caller's list of comment lines faults while it is read
+                ls = [x for x in (random_line(rng, self.stress) for _ in range(rng.choice([1, 2, 3, 5]))) if "\n" not in x[:-1] and x.strip(" \t\n")]
+                k = rng.randrange(len(ls) + 1)
+                ev.update(op="fset", j=k, m={"k": "list", "cl": [it.lex(t) for t in ls], "h": 0})
+                fl = FaultyList(ls, k)
+                return self._run(ev, lambda: para.set_field_from_raw_string(key, stored, field_comment=fl))
+            kw, mode = self._mode(ev, p, occ, idx)
 
             def call():
                 a = api
@@ -1153,6 +1247,10 @@ class Recorder(object):
             ev.update(op="dict", it=items)
             import collections
             mapping = dict(pairs) if rng.random() < 0.6 else collections.OrderedDict(pairs)
+            if rng.random() < 0.2:                  # the caller's mapping faults while it is read
+                k = rng.randrange(len(pairs) + 1)
+                ev.update(op="fdict", j=k)
+                mapping = FaultyDict(pairs, k)
 
             def call():
                 self.paras.append(Deb822ParagraphElement.from_dict(mapping))
@@ -1182,6 +1280,8 @@ class Recorder(object):
         try:
             call()
             ev["res"] = "ok"
+        except X17Fault:
+            ev["res"] = "CallerError"
         except Exception as ex:      # noqa: BLE001 -- an exception of the library is an observation
             if not from_repo(ex):
                 raise
